@@ -496,7 +496,7 @@ func (jenny RawTypes) unmarshalComposableSlot(context languages.Context, parentO
 
 func (jenny RawTypes) unmarshalDisjunctionFunc(context languages.Context, disjunction ast.DisjunctionType) string {
 	// this potentially generates incorrect code, but there isn't much we can do without more information.
-	if disjunction.Discriminator == "" || disjunction.DiscriminatorMapping == nil {
+	if disjunction.Discriminator == "" || len(disjunction.DiscriminatorMapping) == 0 {
 		decodingSwitch := "switch (true) {\n"
 
 		var ignoredBranches []ast.Type
